@@ -11,6 +11,10 @@ ENCS = (8, 16, 32)
 ENC_NAME = {8: "utf-8", 16: "utf-16", 32: "utf-32"}
 KINDS = (0, 1, 2)                      # TextDocumentSyncKind None / Full / Incremental
 EXTRA_SEPS = [0x0B, 0x0C, 0x1C, 0x1D, 0x1E, 0x85, 0x2028, 0x2029]   # must NOT split lines
+# characters text-handling code is tempted to treat specially (strip, normalise, split at, refuse): to the
+# property they are ordinary characters of the buffer, at the start, in the middle and at the end of a text
+FORMAT_CHARS = [0xFEFF, 0x200B, 0x2060, 0x200E, 0xAD, 0xFFFE, 0xFFFF, 0x1FFFE, 0x10FFFF, 0x00, 0x1F, 0x7F, 0xA0]
+SPECIALS = EXTRA_SEPS + FORMAT_CHARS
 URI = "file:///c04/%d.txt"
 
 
@@ -347,7 +351,10 @@ class C04(core.Property):
             "multi-line (range or new text spans a terminator) or has a non-ASCII character before one of its "
             "positions on that line; exhaustive part: every text up to length L over the class alphabet x every "
             "valid range x replacement in {'', 'Z', LF} x 3 encodings, plus each range with its end-of-line ends moved "
-            "beyond the end of the line (LSP: defaults back to the line length)")
+            "beyond the end of the line (LSP: defaults back to the line length); text alphabet of initial and inserted "
+            "texts includes the characters text code is tempted to treat specially (U+FEFF, U+200B, U+2060, U+00AD, "
+            "VT FF FS GS RS US NEL LS PS, NUL, DEL, NBSP, non-characters U+FFFE/U+FFFF/U+1FFFE/U+10FFFF), each at the very "
+            "start / in the middle / at the end / alone x 3 encodings x 3 sync kinds")
     trusted_base = ["Coq 8.16.1 kernel incl. vm_compute (refutation witnesses, Examples)",
                     "extraction with ExtrOcamlBasic only + ocaml/c04_driver.ml + conv_io/conv_n/conv_z",
                     "harness/c04.py (editor simulator, delivery, canonicalisation)",
@@ -373,6 +380,11 @@ class C04(core.Property):
         # 2. editor simulator: valid histories
         for _ in range(chk.n(600, 4000)):
             text0 = self._text(rng, rng.choice([0, 1, 3, 8, 20, 30]))
+            r = rng.random()
+            if r < 0.06:
+                text0 = [rng.choice(SPECIALS)] + text0
+            elif r < 0.10:
+                text0 = text0 + [rng.choice(SPECIALS)]
             nedits = rng.choice([1, 2, 3, 5, 8, 13, 21, 40])
             for e in ENCS:
                 kind = rng.choice([2, 2, 2, 1, 0])
@@ -389,6 +401,8 @@ class C04(core.Property):
         # 4. invalid edits: compared with the model only
         for _ in range(chk.n(1500, 8000)):
             cases.append(self._invalid(rng))
+        # 5. format / boundary / non-characters at the start, in the middle, at the end of initial and inserted texts
+        cases.extend(self._special_histories(rng, chk.n(1, 4)))
         return cases
 
     @staticmethod
@@ -455,13 +469,54 @@ class C04(core.Property):
                 out.append(10)
             elif r < 0.84:
                 out.append(13)
-            elif r < 0.92:
+            elif r < 0.90:
                 out.extend([13, 10])
             else:
-                out.append(rng.choice(EXTRA_SEPS))
+                out.append(rng.choice(SPECIALS))
         return out
 
-    def _edit(self, rng, e, text):
+    def _placed(self, rng, s, where, n):
+        """a text of about n characters with the character s at its very start / in the middle / at its end
+        (where = 0 / 1 / 2) or alone (3); now and again doubled, or first on a later line too"""
+        if where == 3:
+            return [s]
+        base = self._text(rng, n) if rng.random() < 0.5 else [rng.choice([0x61, 0x62, 0x20, 0xE9, 0x1F60B]) for _ in range(n)]
+        if where == 0:
+            out = [s] + base
+        elif where == 2:
+            out = base + [s]
+        else:
+            k = rng.choice([o for o in boundaries(base) if 0 < o < len(base)] or [0])
+            out = base[:k] + [s] + base[k:]
+        r = rng.random()
+        if r < 0.15:
+            out = [s] + out
+        elif r < 0.30:
+            out = out + [rng.choice([10, 13]), s, 0x61]
+        return out
+
+    def _special_histories(self, rng, per):
+        """every special character x {start, middle, end, alone} of the initial text x encoding x sync kind;
+        the changes of these sessions insert the same character (alone, leading, trailing) as well"""
+        out = []
+        for s in SPECIALS:
+            for where in (0, 1, 2, 3):
+                for e in ENCS:
+                    for kind in KINDS:
+                        for _ in range(per):
+                            text0 = self._placed(rng, s, where, rng.choice([1, 2, 4, 7]))
+                            c = self._history(rng, e, kind, text0, rng.choice([1, 2, 3, 5]), "frames", special=s)
+                            out.append(c)
+        return out
+
+    def _new_text(self, rng, n, special=None):
+        new = self._text(rng, n)
+        if special is not None and rng.random() < 0.5:
+            r = rng.random()
+            new = [special] if r < 0.3 else [special] + new if r < 0.6 else new + [special] if r < 0.85 else new[:1] + [special] + new[1:]
+        return new
+
+    def _edit(self, rng, e, text, special=None):
         """one valid edit of the editor's buffer -> (change, new buffer)"""
         bs = boundaries(text)
         eols = [o for o in bs if o == len(text) or text[o] in (10, 13)]
@@ -488,9 +543,9 @@ class C04(core.Property):
         if r < 0.25:
             new = []                                # deletion (or the empty edit)
         elif r < 0.55:
-            new = self._text(rng, 1)
+            new = self._new_text(rng, 1, special)
         else:
-            new = self._text(rng, rng.randint(1, 6))
+            new = self._new_text(rng, rng.randint(1, 6), special)
         pa, pb = pos_of(e, text, a), pos_of(e, text, b)
         def beyond(off, p):
             # LSP: a character beyond the end of the line defaults back to the line length
@@ -506,7 +561,7 @@ class C04(core.Property):
             ch["rl"] = b - a                        # deprecated rangeLength, never read by pygls
         return ch, text[:a] + new + text[b:]
 
-    def _history(self, rng, e, kind, text0, nedits, via):
+    def _history(self, rng, e, kind, text0, nedits, via, special=None):
         text, ns, v, left = list(text0), [], rng.randint(0, 5), nedits
         v0 = v
         qs = [self._qpos(rng, e, text)]                 # queries right after didOpen
@@ -517,12 +572,12 @@ class C04(core.Property):
             hint = 0
             for _ in range(k):
                 if rng.random() < (0.08 if kind == 2 else 0.5):
-                    new = self._text(rng, rng.randint(0, 8))
+                    new = self._new_text(rng, rng.randint(0, 8), special)
                     cs.append({"t": new})
                     if kind != 0:
                         text = new
                 else:
-                    ch, t2 = self._edit(rng, e, text)
+                    ch, t2 = self._edit(rng, e, text, special)
                     cs.append(ch)
                     hint = ch["r"][0]
                     if kind == 2:
